@@ -214,6 +214,10 @@ func runC13Client(rcx *RunCtx) {
 		offerM = reqMsize
 	}
 	xsize := []int{0, 1, 100, int(offerM) - 154, int(offerM), int(offerM) * 3, 70000}[p.Choose(7)]
+	if offerM < 600 && xsize > 400 {
+		// at the smallest msizes the payload is a byte or two per round trip
+		xsize = 400
+	}
 	if xsize < 0 {
 		xsize = 0
 	}
